@@ -548,7 +548,7 @@ def p6_inventory(F, res, R):
                 res.ob("P6", full, desc, True, where=f.loc(ln), how="discharged: " + why)
                 continue
             rv = RP.lookup_reviewed(reviewed, "Q1/" + full, FL.guard_signature(F, f, b, defs))
-            if rv and __import__("lib.inventory", fromlist=["x"]).guards_hold(rv.get("guards", []), FL.guard_signature(F, f, b, defs)):
+            if rv and __import__("lib.inventory", fromlist=["x"]).guards_hold(rv.get("guards", []), FL.guard_signature(F, f, b, defs), {v.get("name") for v in (f.d.get("debug") or [])}):
                 res.ob("P6", full, desc, True, where=f.loc(ln), how="reviewed: " + rv["reason"], reviewed=True)
             else:
                 mv, mv_from = (None, None) if rv else INV.moved(f, b, key.rsplit("/", 1)[0], FL.guard_signature(F, f, b, defs))
